@@ -178,7 +178,16 @@ class AMF:
         return [mk_pdu(1,14,0,None,ies)]
     def dl_nas(s,ue,nas):
         t=ies_type_of(1,4)
-        return mk_pdu(1,4,1,None,[ie_named(t,10,0,ue.amf),ie_named(t,85,0,ue.ran),ie_named(t,38,0,OS(nas))])
+        # optional IEs a real AMF may add (TS 38.413 9.2.5.2), in ASN.1 order: Old AMF and RAN Paging Priority come BEFORE the
+        # NAS-PDU, Index to RFSP and UE-AMBR after it
+        ies=[ie_named(t,10,0,ue.amf),ie_named(t,85,0,ue.ran)]
+        s.n_dlnas=getattr(s,'n_dlnas',0)+1
+        k=s.n_dlnas%4
+        if k in (1,3): ies.append(ie_named(t,48,0,OS(b'amf-old')))
+        if k in (2,3): ies.append(ie_named(t,83,1,5))
+        ies.append(ie_named(t,38,0,OS(nas)))
+        if k==3: ies.append(ie_named(t,31,1,7))
+        return mk_pdu(1,4,1,None,ies)
     def ue_of(s,ids,D,crit):
         need(ids[:2]==[(10,crit),(85,crit)],f'UE ids / criticality {ids[:2]}')
         a=int(D[10][0]); r=int(D[85][0]); ue=s.ues.get(a); need(ue is not None,f'unknown AMF-UE-NGAP-ID {a}'); need(ue.ran==r,f'RAN-UE-NGAP-ID {r} != {ue.ran}')
